@@ -13,6 +13,7 @@
 #[path = "../searcher_common.rs"]
 mod searcher_common;
 
+use grep_matcher::Matcher;
 use grep_regex::{RegexMatcher, RegexMatcherBuilder};
 use rgverif_harness::*;
 use searcher_common::*;
@@ -22,6 +23,10 @@ struct C1 {
     cfg: Cfg,
     ci: bool,
     fixed: bool,
+    /// `-w`: `RegexMatcherBuilder::word(true)`
+    word: bool,
+    /// `-S`: `RegexMatcherBuilder::case_smart(true)`
+    smart: bool,
     pats: Vec<String>,
     input: Vec<u8>,
 }
@@ -29,10 +34,30 @@ struct C1 {
 impl C1 {
     fn line(&self) -> String {
         let ps: Vec<String> = self.pats.iter().map(|p| hex(p.as_bytes())).collect();
+        if self.word || self.smart {
+            return format!(
+                "re01x {} i{} F{} w{} S{} {} {}",
+                self.cfg.token(),
+                self.ci as u8,
+                self.fixed as u8,
+                self.word as u8,
+                self.smart as u8,
+                ps.join(","),
+                hex(&self.input)
+            );
+        }
         format!("re01 {} i{} F{} {} {}", self.cfg.token(), self.ci as u8, self.fixed as u8, ps.join(","), hex(&self.input))
     }
     fn parse(s: &str) -> Option<C1> {
-        let p: Vec<&str> = s.split_whitespace().collect();
+        let mut p: Vec<&str> = s.split_whitespace().collect();
+        let (mut word, mut smart) = (false, false);
+        if p.len() == 8 && p[0] == "re01x" {
+            word = p[4] == "w1";
+            smart = p[5] == "S1";
+            p.remove(5);
+            p.remove(4);
+            p[0] = "re01";
+        }
         if p.len() != 6 || p[0] != "re01" {
             return None;
         }
@@ -43,7 +68,7 @@ impl C1 {
         for h in p[4].split(',') {
             pats.push(String::from_utf8(unhex(h)?).ok()?);
         }
-        Some(C1 { cfg, ci, fixed, pats, input: unhex(p[5])? })
+        Some(C1 { cfg, ci, fixed, word, smart, pats, input: unhex(p[5])? })
     }
 }
 
@@ -51,6 +76,12 @@ impl C1 {
 fn build_matcher(c: &C1) -> Result<RegexMatcher, String> {
     let mut b = RegexMatcherBuilder::new();
     b.multi_line(true).unicode(true).octal(false).fixed_strings(c.fixed).case_insensitive(c.ci);
+    if c.smart {
+        b.case_smart(true);
+    }
+    if c.word {
+        b.word(true);
+    }
     b.line_terminator(Some(b'\n')).dot_matches_new_line(false);
     if c.cfg.lt == Lt::Crlf {
         b.crlf(true);
@@ -61,17 +92,87 @@ fn build_matcher(c: &C1) -> Result<RegexMatcher, String> {
     b.build_many(&c.pats).map_err(|e| e.to_string())
 }
 
+/// The documented smart-case rule, decided on the pattern TEXT (independently of regex-syntax's AST): the
+/// pattern is searched case-insensitively iff it contains at least one literal character and none of its
+/// literal characters is uppercase. Escapes (`\w`, `\pL`, `\b`, `\x00` …), flag groups `(?…)`, counted
+/// repetitions `{m,n}` and operators contribute no literal; letters inside `[...]` are literals.
+fn smart_case_insensitive(pat: &str) -> bool {
+    let cs: Vec<char> = pat.chars().collect();
+    let (mut any_lit, mut any_upper) = (false, false);
+    let mut i = 0;
+    while i < cs.len() {
+        let c = cs[i];
+        if c == '\\' {
+            i += 1;
+            if i < cs.len() {
+                match cs[i] {
+                    'p' | 'P' => {
+                        if i + 1 < cs.len() && cs[i + 1] == '{' {
+                            while i < cs.len() && cs[i] != '}' {
+                                i += 1;
+                            }
+                        } else {
+                            i += 1;
+                        }
+                    }
+                    'x' => i += 2,
+                    _ => {}
+                }
+            }
+            i += 1;
+            continue;
+        }
+        if c == '(' && i + 1 < cs.len() && cs[i + 1] == '?' {
+            while i < cs.len() && cs[i] != ':' && cs[i] != ')' {
+                i += 1;
+            }
+            i += 1;
+            continue;
+        }
+        if c == '{' {
+            while i < cs.len() && cs[i] != '}' {
+                i += 1;
+            }
+            i += 1;
+            continue;
+        }
+        if "()[]|*+?^$.-".contains(c) {
+            i += 1;
+            continue;
+        }
+        any_lit = true;
+        if c.is_uppercase() {
+            any_upper = true;
+        }
+        i += 1;
+    }
+    any_lit && !any_upper
+}
+
 /// The user's pattern as the regex crate understands it (the reference of the property).
 fn build_reference(c: &C1) -> Result<regex::bytes::Regex, String> {
     let alts: Vec<String> = c
         .pats
         .iter()
-        .map(|p| if c.fixed { regex::escape(p) } else { format!("(?:{})", p) })
+        .map(|p| {
+            let body = if c.fixed { regex::escape(p) } else { p.clone() };
+            let insensitive = c.ci || (c.smart && !c.fixed && smart_case_insensitive(p));
+            if insensitive {
+                format!("(?i:{})", body)
+            } else {
+                format!("(?:{})", body)
+            }
+        })
         .collect();
-    let mut b = regex::bytes::RegexBuilder::new(&alts.join("|"));
+    let mut joined = alts.join("|");
+    if c.word {
+        // `into_word`: the whole expression between the Unicode half-word assertions
+        joined = format!("\\b{{start-half}}(?:{})\\b{{end-half}}", joined);
+    }
+    let mut b = regex::bytes::RegexBuilder::new(&joined);
     // NUL-data only changes how the input is cut into records: `.`, `^`, `$` keep their `\n` meaning
     // (grep-regex does not hand the NUL terminator to the regex syntax; see the FIXME in core.rs).
-    b.multi_line(true).unicode(true).case_insensitive(c.ci).crlf(c.cfg.lt == Lt::Crlf);
+    b.multi_line(true).unicode(true).crlf(c.cfg.lt == Lt::Crlf);
     b.build().map_err(|e| e.to_string())
 }
 
@@ -157,8 +258,77 @@ fn gen_case(rng: &mut Rng) -> C1 {
     let pats: Vec<String> = (0..np)
         .map(|_| if fixed { ["a", "ab", "a.", "$", "\\B"][rng.below(5)].to_string() } else { gen_pattern(rng, 2, lt) })
         .collect();
-    C1 { cfg, ci: rng.chance(1, 5), fixed, pats, input: gen_input(rng, lt) }
+    C1 { cfg, ci: rng.chance(1, 5), fixed, word: false, smart: false, pats, input: gen_input(rng, lt) }
 }
+
+/// `-w` with patterns LIT · (group / alternation / repetition starting with a non-literal) · LIT: ripgrep's own
+/// inner-literal extraction is active (Unicode word looks keep regex-automata from accelerating by itself),
+/// and lines that do match are generated.
+fn gen_word_case(rng: &mut Rng) -> C1 {
+    let lits = ["foo", "ab", "baz", "x", "quux", "bar", "a"];
+    let l1 = *rng.pick(&lits);
+    let l2 = *rng.pick(&lits);
+    let l3 = *rng.pick(&lits);
+    let gap = *rng.pick(&["[A-Z]+", "[0-9]", "\\d+", "[A-Z]*", ".", "\\s"]);
+    let pat = match rng.below(5) {
+        0 => format!("{}({}{}){}", l1, gap, l2, l3),
+        1 => format!("{}(?:{}{}|{}){}", l1, gap, l2, gap, l3),
+        2 => format!("{}(?:{}{})+{}", l1, gap, l2, l3),
+        3 => format!("{}(?:{}{})?{}", l1, gap, l2, l3),
+        _ => format!("{}{}{}{}", l1, gap, l2, l3),
+    };
+    let lt = *rng.pick(&[Lt::Lf, Lt::Lf, Lt::Crlf]);
+    let cfg = Cfg { lt, inv: rng.chance(1, 5), a: 0, b: 0, pt: rng.chance(1, 6), ln: true, son: false, ml: false, bin: Bin::None };
+    let fill = |rng: &mut Rng| -> String {
+        match gap {
+            "[A-Z]+" | "[A-Z]*" => (0..rng.range(1, 2)).map(|_| *rng.pick(&['X', 'Y', 'Q'])).collect(),
+            "[0-9]" | "\\d+" => "7".to_string(),
+            "\\s" => " ".to_string(),
+            _ => "z".to_string(),
+        }
+    };
+    let mut input = vec![];
+    let n = rng.range(1, 5);
+    for i in 0..n {
+        let line = match rng.below(5) {
+            0 | 1 => format!("{}{}{}{}", l1, fill(rng), l2, l3),
+            2 => format!("- {}{}{}{} !", l1, fill(rng), l2, l3),
+            3 => format!("{}{}", l1, l3),
+            _ => format!("w{}{}{}{}w", l1, fill(rng), l2, l3),
+        };
+        input.extend_from_slice(line.as_bytes());
+        if i + 1 < n || rng.chance(3, 4) {
+            input.extend_from_slice(lt.bytes());
+        }
+    }
+    C1 { cfg, ci: false, fixed: false, word: rng.chance(4, 5), smart: false, pats: vec![pat], input }
+}
+
+/// `-S`: uppercase letters only inside repetitions / groups / classes, or only as escapes (`\W`, `\pL`), mixed
+/// with lowercase literals; inputs with case variants of the same words.
+fn gen_smart_case(rng: &mut Rng) -> C1 {
+    let atoms = [
+        "status ", "o", "K?", "(OK)+", "N*", "ame", "[a-z]", "[A-Z]", "\\W", "\\pL", "k", "(?:Ok|ko)", "a{1,2}", "B{1,2}", "$", "^", "n",
+        "(k)?", "[Kk]", "\\w", "ok",
+    ];
+    let n = rng.range(1, 4);
+    let pat: String = (0..n).map(|_| *rng.pick(&atoms)).collect();
+    let lt = *rng.pick(&[Lt::Lf, Lt::Lf, Lt::Crlf]);
+    let cfg = Cfg { lt, inv: rng.chance(1, 5), a: 0, b: 0, pt: rng.chance(1, 5), ln: true, son: false, ml: false, bin: Bin::None };
+    let words = [
+        "status ok", "status OK", "STATUS OK", "status oK", "Name", "name", "NAME", "ok", "OK", "Ok", "k", "K", "nn", "N", "a", "B", "bb", "",
+    ];
+    let mut input = vec![];
+    let nl = rng.range(1, 6);
+    for i in 0..nl {
+        input.extend_from_slice(rng.pick(&words).as_bytes());
+        if i + 1 < nl || rng.chance(3, 4) {
+            input.extend_from_slice(lt.bytes());
+        }
+    }
+    C1 { cfg, ci: false, fixed: false, word: rng.chance(1, 6), smart: true, pats: vec![pat], input }
+}
+
 
 /// The `m …` entries of an event stream (offset and bytes are what identifies a reported line).
 fn reported(run: &str) -> Vec<String> {
@@ -285,10 +455,30 @@ fn run_case(line: &str, drv: &mut Driver, rep: &mut Report) {
     }
     // F: impl vs the property
     let cr_in_content = lines.iter().any(|l| content(l, cfg.lt).contains(&b'\r'));
+    // is the matcher's verdict on some line different in buffer context and on the line alone?
+    // (that — and only that — is what findings F1 / F2 / F24 are about)
+    let ctx_dependent = {
+        let mut off = 0usize;
+        let mut dep = false;
+        for l in &lines {
+            let cont = content(l, cfg.lt);
+            let line_last = off + l.len() - if l.last() == Some(&cfg.lt.byte()) { 1 } else { 0 };
+            let in_ctx = m.find_at(&c.input, off).ok().flatten().map_or(false, |mm| mm.start() <= line_last);
+            let alone = m.is_match(cont).unwrap_or(false);
+            if in_ctx != alone {
+                dep = true;
+            }
+            off += l.len();
+        }
+        dep
+    };
+    if ctx_dependent {
+        rep.branch("matcher-verdict-depends-on-buffer-context");
+    }
     let class = if cfg.lt == Lt::Crlf && cr_in_content && bits_m != bits_r {
         // matcher level: under --crlf the pattern is rewritten so that it can match neither \r nor \n
         "crlf-cr-unmatchable"
-    } else if path == "fast" && safe == "0" {
+    } else if path == "fast" && safe == "0" && ctx_dependent {
         if cfg.lt == Lt::Crlf {
             "fastpath-matcher-not-linesafe-crlf"
         } else {
@@ -335,7 +525,10 @@ fn main() {
          -i, -F, several -e) over generated patterns with anchors, word boundaries, \\r, classes, empty alternatives; inputs with \
          lone CR, bare LF under CRLF, NUL, invalid UTF-8, empty lines, missing final terminator; inversion; passthru (forces the slow \
          path). Non-trivial = the pattern uses >= 2 kinds of operators and the input has both selected and unselected lines. \
-         Haystack anchors \\A \\z are not generated (excluded by the property). -w / -x wrapping belongs to the matcher-level half.",
+         Haystack anchors \\A \\z are not generated (excluded by the property). Two further streams: -w (word(true)) over patterns LIT (gap LIT) LIT \
+         with matching lines, so that ripgrep's own inner-literal extraction is exercised, and -S (case_smart(true)) over patterns whose \
+         uppercase letters sit only under repetitions / groups / classes / escapes, with case variants as input; the reference decides \
+         smart case from the documented rule on the pattern text and wraps -w in the Unicode half-word assertions.",
     );
     for c in corpus_cases(&args) {
         run_case(&c, &mut drv, &mut rep);
@@ -344,7 +537,12 @@ fn main() {
         let mut rng = Rng::new(args.seed);
         let n = args.cases.unwrap_or(if args.thorough { 100000 } else { 6000 });
         for i in 0..n {
-            let c = gen_case(&mut rng).line();
+            let c = match i % 8 {
+                3 => gen_word_case(&mut rng),
+                6 => gen_smart_case(&mut rng),
+                _ => gen_case(&mut rng),
+            }
+            .line();
             if i < 8 {
                 rep.sample(c.clone());
             }
